@@ -490,6 +490,16 @@ def generate(rng, index, tier):
                     'order': 's1_first', 'fd': [], 'negate': [idx]})
         ops.append({'op': 'check', 'on': 'll', 'point': pt,
                     'order': 's1_first', 'fd': list(range(n_all))})
+    if shape in ('ll', 'lp') and rng.random() < 0.2 and any(
+            recipes[1 + j]['cls'] in ('M', 'CM') for j in range(n_out)):
+        # a negative mechanistic parameter (say an initial amount): the model
+        # output may turn negative, and with it the standard deviation of a
+        # multiplicative error model - wherever plain evaluation is not
+        # finite there, evaluateS1 must not be either
+        pt = rng.randint(0, 2)
+        ops.append({'op': 'check', 'on': 'll', 'point': pt,
+                    'order': rng.choice(['s1_first', 'plain_first']),
+                    'fd': [], 'negate': [rng.randrange(n_mech)]})
     cm = [j for j in range(n_out) if recipes[1 + j]['cls'] == 'CM']
     if shape == 'll' and cm and rng.random() < 0.5:
         # an error model with two parameters: fix one, differentiate, move
